@@ -24,7 +24,7 @@ func runC17(c *Ctx) {
 	R := c.R
 	R.Rule("same-once", "Do calls (*sync.Once).Do exactly once, on the receiver's own sync.Once field", 3)
 	R.Rule("single-invocation", "the user function is called exactly once, inside the closure passed to once.Do, and nowhere else; nothing but the Once decides", 3)
-	R.Rule("writes-inside-once", "each result field is stored inside that closure with the matching result of the call, and nowhere else in the package", 3)
+	R.Rule("writes-inside-once", "each result field is stored inside that closure with the matching result of the call, and nowhere else in the package", 4)
 	R.Rule("reads-after-once", "Do returns the result fields (in order), loaded after once.Do returned", 3)
 
 	for n := 1; n <= 3; n++ {
@@ -135,8 +135,8 @@ func runC17(c *Ctx) {
 			stored := map[int]bool{}
 			for i := range q.Events {
 				e := &q.Events[i]
-				if e.Kind != "store" {
-					continue
+				if e.Kind != "store" || rootOf(e.Addr).Op == "alloc" {
+					continue // not a store, or a spill into a local of the closure
 				}
 				matched := false
 				for k, rf := range resFields {
@@ -227,5 +227,7 @@ func runC17(c *Ctx) {
 	}
 	if len(extra) > 0 {
 		R.Refuted("writes-inside-once", "sync2", "other-writers", "", "result fields are written outside Do: "+strings.Join(extra, "; "))
+	} else {
+		R.Held("writes-inside-once", "sync2", "other-writers", "", "no function besides the Do closures writes the result fields")
 	}
 }
